@@ -17,8 +17,10 @@ def run(ctx, res):
         "the ready list does not depend on the collect_pending flag (so Ready items equal the plain list).  R2 (SQ loop shape) "
         "in build_remove_marker_all the cursor into the pending list is advanced only inside an inner loop of the loop over "
         "ready ranges (all earlier pending ranges are consumed), every ready range is pushed once, unconditionally, tagged "
-        "true, pending ones tagged false, and the remaining pending tail is appended after the loop.  Not decided: the squash "
-        "test, once-each and order in general (run-time range arithmetic).")
+        "true, pending ones tagged false, and the remaining pending tail is appended after the loop.  R4 (ordering enumeration of one step of the inner "
+        "loop over all endpoint orderings) a pending range is omitted exactly when it lies wholly inside the ready range, is listed as itself with status Pending, "
+        "is taken up in front of a ready range exactly when it begins before that range ends (nested or disjoint pairs), and the cursor starts at 0.  "
+        "Not decided: once-each and order for ranges that partially overlap (they cannot arise from nested elements).")
     res.trusted += ["driver fact extraction and the abstract interpreter"]
     rows, bad = common.element_rows(ctx, res, "C17.R1", lambda r: True, "pending/ready gating")
     res.extra["table_rows"] = rows
